@@ -321,6 +321,821 @@ Proof.
 Qed.
 
 (* ================================================================== *)
+(* C3: a paragraph with comment range markers                           *)
+(* ================================================================== *)
+(* the number of visible runs, without rendering anything *)
+Definition nvis (rs : list run) : nat := length (filter (fun r => nonempty (r_toks r)) rs).
+Definition open_count (p : par) : nat :=
+  ((match p_hstyle p with [] => 0 | _ => 1 end) + nvis (p_runs p))%nat.
+
+Lemma nvis_app a b : nvis (a ++ b) = (nvis a + nvis b)%nat.
+Proof. unfold nvis. rewrite filter_app, app_length. reflexivity. Qed.
+
+Lemma nvis_ensure rs : nvis (ensure_run rs) = nvis rs.
+Proof. destruct rs; reflexivity. Qed.
+
+Lemma nvis_upd_last ts : forall rs,
+  (nvis rs <= nvis (upd_last (fun r => {| r_style := r_style r; r_toks := r_toks r ++ ts |}) rs))%nat.
+Proof.
+  induction rs as [|x r IH]; [apply Nat.le_refl|].
+  destruct r as [|y r'].
+  - cbn [upd_last]. unfold nvis. cbn [filter r_toks].
+    destruct (r_toks x) as [|t l]; cbn [app nonempty length]; [apply Nat.le_0_l|apply Nat.le_refl].
+  - change (upd_last ?f (x :: y :: r')) with (x :: upd_last f (y :: r')).
+    change (x :: ?l) with ([x] ++ l). rewrite !nvis_app. lia.
+Qed.
+
+Lemma run_toks_nonempty r ts : run_toks r = Ok ts -> nonempty ts = nonempty (r_toks r).
+Proof.
+  unfold run_toks. destruct (r_toks r) as [|t l] eqn:E; intro H.
+  - injection H as <-. reflexivity.
+  - bind_inv H as cl Ecl. injection H as <-. destruct (map TOpen (r_style r)); reflexivity.
+Qed.
+
+Lemma mapM_run_toks_nvis : forall rs ys,
+  mapM run_toks rs = Ok ys -> length (filter nonempty ys) = nvis rs.
+Proof.
+  induction rs as [|r rs IH]; intros ys H.
+  - cbn in H. injection H as <-. reflexivity.
+  - cbn [mapM] in H. bind_inv H as y Ey. bind_inv H as ys' Eys. injection H as <-.
+    unfold nvis. cbn [filter]. rewrite (run_toks_nonempty _ _ Ey).
+    destruct (nonempty (r_toks r)); cbn [length]; rewrite (IH _ eq_refl); reflexivity.
+Qed.
+
+Lemma open_strs_length html p l : open_strs html p = Ok l -> length l = open_count p.
+Proof.
+  intro H. apply open_strs_spec in H. destruct H as (ys & Ey & ->).
+  rewrite map_length, app_length, (mapM_run_toks_nvis _ _ Ey). unfold open_count, hdr.
+  destruct (p_hstyle p); reflexivity.
+Qed.
+
+Lemma closed_strs_length html p l :
+  par_run_strings html p = Ok l -> (open_count p <= length l)%nat.
+Proof.
+  intro H. destruct (closed_strs_spec _ _ _ H) as (lo & z & Elo & ->).
+  rewrite app_length, (open_strs_length _ _ _ Elo). lia.
+Qed.
+
+(* ---- the frame property of inline subtrees, with a relation between the
+   runs of the open paragraph before and after ---- *)
+(* take a handler apart, one state-independent test at a time *)
+Ltac mstep H :=
+  match type of H with
+  | Ok _ = Ok _ => fail 1
+  | Err _ = Ok _ => discriminate H
+  | bind ?c _ = Ok _ =>
+      let E := fresh "E" in destruct c eqn:E; [cbn [bind] in H|discriminate H]
+  | (if ?c then _ else _) = Ok _ => destruct c
+  | match ?c with _ => _ end = Ok _ => destruct c
+  end.
+
+Section Frame.
+  Variable R : list run -> list run -> Prop.
+  Hypothesis R_refl : forall rs, R rs rs.
+  Hypothesis R_trans : forall a b c, R a b -> R b c -> R a c.
+  Hypothesis R_app : forall rs x, R rs (rs ++ x).
+  Hypothesis R_ensure : forall rs, R rs (ensure_run rs).
+  Hypothesis R_upd : forall ts rs, rs <> [] ->
+    R rs (upd_last (fun r => {| r_style := r_style r; r_toks := r_toks r ++ ts |}) rs).
+
+  Definition mono (f : cst -> res cst) : Prop :=
+    forall s p rest s', c_open s = p :: rest -> f s = Ok s' ->
+      exists rs', s' = set_open (with_runs p rs' :: rest) s /\ R (p_runs p) rs'.
+
+  Definition mono_b (f : cst -> res (cst * bool)) : Prop :=
+    forall s p rest s' b, c_open s = p :: rest -> f s = Ok (s', b) ->
+      exists rs', s' = set_open (with_runs p rs' :: rest) s /\ R (p_runs p) rs'.
+
+  Lemma mono_id_at s p rest :
+    c_open s = p :: rest ->
+    exists rs', s = set_open (with_runs p rs' :: rest) s /\ R (p_runs p) rs'.
+  Proof.
+    intro Ho. exists (p_runs p). rewrite with_runs_id, (set_open_id s _ Ho).
+    split; [reflexivity|apply R_refl].
+  Qed.
+
+  Lemma mono_ret : mono (fun s => Ok s).
+  Proof. intros s p rest s' Ho H. injection H as <-. apply mono_id_at, Ho. Qed.
+
+  Lemma mono_bind f g : mono f -> mono g -> mono (fun s => s1 <- f s ;; g s1).
+  Proof.
+    intros Hf Hg s p rest s' Ho H. cbv beta in H. bind_inv H as s1 E1.
+    destruct (Hf s p rest s1 Ho E1) as (rs1 & -> & L1).
+    destruct (Hg (set_open (with_runs p rs1 :: rest) s) (with_runs p rs1) rest s' eq_refl H)
+      as (rs2 & -> & L2).
+    exists rs2. split; [reflexivity|]. cbn [p_runs with_runs] in L2. exact (R_trans _ _ _ L1 L2).
+  Qed.
+
+  Lemma mono_upd v F : (forall rs, R rs (F rs)) -> mono (upd_open_runs v F).
+  Proof.
+    intros HF s p rest s' Ho H. rewrite (upd_open_runs_open _ _ _ _ _ Ho) in H. injection H as <-.
+    exists (F (p_runs p)). split; [reflexivity|apply HF].
+  Qed.
+
+  Lemma mono_insert v ts : mono (insert_text_as_new_run v ts).
+  Proof.
+    apply mono_upd. intro rs. cbv zeta. exact (R_trans _ _ _ (R_ensure rs) (R_app _ _)).
+  Qed.
+  Lemma mono_commence_run v st : mono (commence_run v st).
+  Proof. apply mono_upd. intro rs. apply R_app. Qed.
+  Lemma mono_add_toks v ts : mono (add_toks v ts).
+  Proof.
+    apply mono_upd. intro rs.
+    exact (R_trans _ _ _ (R_ensure rs) (R_upd ts _ (ensure_run_nonnil rs))).
+  Qed.
+  Lemma mono_add_text v txt : mono (add_text_into_open_run v txt).
+  Proof. apply mono_add_toks. Qed.
+  Lemma mono_add_code v ts : mono (add_code_into_open_run v ts).
+  Proof. apply mono_add_toks. Qed.
+
+  Ltac mdone H Ho :=
+    injection H as <- <-;
+    first [ apply mono_id_at; exact Ho
+          | eapply mono_insert; [exact Ho|eassumption]
+          | eapply mono_add_code; [exact Ho|eassumption]
+          | eapply mono_add_text; [exact Ho|eassumption]
+          | eapply mono_commence_run; [exact Ho|eassumption] ].
+
+  Lemma open_tag_mono v path t e ks body :
+    inline_tag (e_ptag e) -> mono_b (open_tag v path t e ks body).
+  Proof.
+    intros (Hp & _ & Hfn & Hen & Hcs & Hce) s p rest s' b Ho H.
+    unfold open_tag, note_ref, image_ref in H. cbv zeta in H.
+    rewrite Hp, Hfn, Hen, Hcs, Hce in H.
+    repeat mstep H; mdone H Ho.
+  Qed.
+
+  Lemma close_tag_mono v e ks : inline_tag (e_ptag e) -> mono (close_tag v e ks).
+  Proof.
+    intros (Hp & Htc & _). unfold close_tag. cbv zeta. rewrite Hp, Htc.
+    destruct (str_eqb (e_ptag e) tag_RUN); [apply mono_commence_run|apply mono_ret].
+  Qed.
+
+  Lemma kids_loop_mono v path : forall ks,
+    Forall (fun k => forall path', mono (walk v path' k)) ks ->
+    forall i, mono (kids_loop v path ks i).
+  Proof.
+    induction 1 as [|k r Hk Hr IH]; intro i; cbn [kids_loop].
+    - exact mono_ret.
+    - apply (mono_bind (walk v (i :: path) k) (kids_loop v path r (S i))); [apply Hk|apply IH].
+  Qed.
+
+  (* an inline element, up to its close handler *)
+  Lemma walk_inline_split v e ks path s p rest s' :
+    Forall (fun k => forall path', mono (walk v path' k)) ks ->
+    plain_inline (AE e ks) = true -> c_open s = p :: rest -> walk v path (AE e ks) s = Ok s' ->
+    exists rs3, R (p_runs p) rs3
+                /\ close_tag v e ks (set_open (with_runs p rs3 :: rest) s) = Ok s'.
+  Proof.
+    intros HF Hpl Ho H.
+    pose proof (plain_inline_no_depth _ Hpl) as Hd.
+    apply plain_inline_AE in Hpl. destruct Hpl as [Htag Hks].
+    rewrite walk_AE in H. cbv zeta in H. rewrite Hd in H.
+    cbn [set_caret bind] in H. bind_inv H as body Eb. bind_inv H as s2r Eo.
+    destruct s2r as [s2 rec].
+    destruct (open_tag_mono v path (AE e ks) e ks body Htag s p rest s2 rec Ho Eo)
+      as (rs1 & -> & L1).
+    bind_inv H as s3 Ek. bind_inv H as s4 Ec. injection H as <-.
+    destruct rec.
+    - destruct (kids_loop_mono v path ks HF O (set_open (with_runs p rs1 :: rest) s)
+                  (with_runs p rs1) rest s3 eq_refl Ek)
+        as (rs3 & -> & L3). exists rs3. split; [exact (R_trans _ _ _ L1 L3)|exact Ec].
+    - injection Ek as <-. exists rs1. split; [exact L1|exact Ec].
+  Qed.
+
+  Lemma plain_kids_mono v ks :
+    Forall (fun t => plain_inline t = true -> forall path, mono (walk v path t)) ks ->
+    forallb plain_inline ks = true ->
+    Forall (fun k => forall path', mono (walk v path' k)) ks.
+  Proof.
+    intros IH Hks. induction IH as [|k r Hk Hr IHr]; [constructor|].
+    cbn [forallb] in Hks. apply andb_true_iff in Hks. destruct Hks as [K1 K2].
+    constructor; auto.
+  Qed.
+
+  Lemma walk_mono v : forall t, plain_inline t = true -> forall path, mono (walk v path t).
+  Proof.
+    apply (ShapeFacts.anode_ind' (fun t => plain_inline t = true -> forall path, mono (walk v path t))).
+    - intros tl _ path. exact mono_ret.
+    - intros e ks IH Hpl path s p rest s' Ho H.
+      pose proof (plain_inline_AE _ _ Hpl) as [Htag Hks].
+      destruct (walk_inline_split v e ks path s p rest s' (plain_kids_mono v ks IH Hks) Hpl Ho H)
+        as (rs3 & L3 & Ec).
+      destruct (close_tag_mono v e ks Htag (set_open (with_runs p rs3 :: rest) s)
+                  (with_runs p rs3) rest s' eq_refl Ec)
+        as (rs4 & -> & L4).
+      exists rs4. split; [reflexivity|]. cbn [p_runs with_runs] in L4. exact (R_trans _ _ _ L3 L4).
+  Qed.
+
+  Lemma walk_inline_split' v e ks path s p rest s' :
+    plain_inline (AE e ks) = true -> c_open s = p :: rest -> walk v path (AE e ks) s = Ok s' ->
+    exists rs3, R (p_runs p) rs3
+                /\ close_tag v e ks (set_open (with_runs p rs3 :: rest) s) = Ok s'.
+  Proof.
+    intros Hpl Ho H. apply (walk_inline_split v e ks path s p rest s'); try assumption.
+    apply plain_inline_AE in Hpl. destruct Hpl as [_ Hks].
+    clear - Hks R_refl R_trans R_app R_ensure R_upd. induction ks as [|k r IH]; [constructor|].
+    cbn [forallb] in Hks. apply andb_true_iff in Hks. destruct Hks as [K1 K2].
+    constructor; [intro path'; apply walk_mono; exact K1|auto].
+  Qed.
+End Frame.
+
+(* first instance: the number of visible runs never decreases *)
+Definition Rn (rs rs' : list run) : Prop := (nvis rs <= nvis rs')%nat.
+
+Lemma walk_count_mono v t path :
+  plain_inline t = true -> mono Rn (walk v path t).
+Proof.
+  intro H. refine (walk_mono Rn _ _ _ _ _ v t H path); unfold Rn.
+  - intro rs. lia.
+  - intros a b c. lia.
+  - intros rs x. rewrite nvis_app. lia.
+  - intro rs. rewrite nvis_ensure. lia.
+  - intros ts rs _. apply nvis_upd_last.
+Qed.
+
+(* ---- the markers ---- *)
+Lemma ranges_get_set : forall (k k' : str) (x : nat * nat) d,
+  dict_get k (ranges_set k' x d) = if str_eqb k k' then Some x else dict_get k d.
+Proof.
+  intros k k' x d. induction d as [|[k0 v0] r IH]; cbn [ranges_set dict_get].
+  - reflexivity.
+  - destruct (str_eqb k' k0) eqn:E; cbn [dict_get].
+    + apply str_eqb_eq in E. subst k0. destruct (str_eqb k k'); reflexivity.
+    + rewrite IH. destruct (str_eqb k k0) eqn:E0, (str_eqb k k') eqn:E1; try reflexivity.
+      apply str_eqb_eq in E0. apply str_eqb_eq in E1. subst.
+      rewrite BulletsFacts.str_eqb_refl in E. discriminate.
+Qed.
+
+Lemma marker_no_depth e : str_eqb (e_ptag e) tag_PARAGRAPH = false -> elem_depth (AE e []) = None.
+Proof.
+  intro H. unfold elem_depth. rewrite min_par_depth_AE, H. cbn [mpd_list option_map].
+  destruct (mem_str (e_ptag e) depth_none_tags); reflexivity.
+Qed.
+
+Lemma walk_marker_start v path e s :
+  e_ptag e = tag_COMMENT_RANGE_START ->
+  walk v path (AE e []) s = (id <- attr_w_req e s_id ;; start_comment_range v id s).
+Proof.
+  intro Ht. rewrite walk_AE. cbv zeta. rewrite marker_no_depth by (rewrite Ht; reflexivity).
+  cbn [set_caret bind]. unfold open_tag, close_tag. cbv zeta. rewrite Ht.
+  change (str_eqb tag_COMMENT_RANGE_START tag_HYPERLINK) with false.
+  change (str_eqb tag_COMMENT_RANGE_START tag_PARAGRAPH) with false.
+  change (str_eqb tag_COMMENT_RANGE_START tag_RUN) with false.
+  change (str_eqb tag_COMMENT_RANGE_START tag_COMMENT_RANGE_END) with false.
+  change (str_eqb tag_COMMENT_RANGE_START tag_COMMENT_RANGE_START) with true.
+  change (str_eqb tag_COMMENT_RANGE_START tag_TABLE_CELL) with false.
+  cbv iota. cbn [bind].
+  destruct (attr_w_req e s_id) as [id|x]; [|reflexivity]. cbn [bind].
+  destruct (start_comment_range v id s) as [s1|x]; reflexivity.
+Qed.
+
+Lemma walk_marker_end v path e s :
+  e_ptag e = tag_COMMENT_RANGE_END ->
+  walk v path (AE e []) s = (id <- attr_w_req e s_id ;; end_comment_range v id s).
+Proof.
+  intro Ht. rewrite walk_AE. cbv zeta. rewrite marker_no_depth by (rewrite Ht; reflexivity).
+  cbn [set_caret bind]. unfold open_tag, close_tag. cbv zeta. rewrite Ht.
+  change (str_eqb tag_COMMENT_RANGE_END tag_HYPERLINK) with false.
+  change (str_eqb tag_COMMENT_RANGE_END tag_PARAGRAPH) with false.
+  change (str_eqb tag_COMMENT_RANGE_END tag_RUN) with false.
+  change (str_eqb tag_COMMENT_RANGE_END tag_COMMENT_RANGE_END) with true.
+  change (str_eqb tag_COMMENT_RANGE_END tag_TABLE_CELL) with false.
+  cbv iota. cbn [bind].
+  destruct (attr_w_req e s_id) as [id|x]; [|reflexivity]. cbn [bind].
+  destruct (end_comment_range v id s) as [s1|x]; reflexivity.
+Qed.
+
+Definition marker_or_inline (t : anode) : bool :=
+  plain_inline t
+  || match t with
+     | AE e [] => str_eqb (e_ptag e) tag_COMMENT_RANGE_START
+                  || str_eqb (e_ptag e) tag_COMMENT_RANGE_END
+     | _ => false
+     end.
+
+Section OnePar.
+  Variable v : env.
+  Variable ps : list par.              (* the concluded paragraphs *)
+  Variable a : list (list str).        (* their run strings *)
+  Hypothesis Ha : mapM (par_run_strings (html_on v)) ps = Ok a.
+  Variable R0 : list (str * (nat * nat)).   (* the ranges recorded before this paragraph *)
+
+  Let n0 := length (concat a).
+
+  (* inside the paragraph: one open paragraph q, and every range recorded
+     since the start lies between n0 and the present count *)
+  Definition J (st : cst) : Prop :=
+    exists q, c_open st = [q] /\ c_queued st = [] /\ pars_at 4%nat (c_tree st) = Ok ps
+      /\ forall id b en, dict_get id (c_ranges st) = Some (b, en) -> dict_get id R0 = None ->
+           (n0 <= b /\ b <= en /\ en <= n0 + open_count q)%nat.
+
+  Lemma count_in_par st q n :
+    c_open st = [q] -> pars_at 4%nat (c_tree st) = Ok ps ->
+    count_runs v st = Ok n -> n = (n0 + open_count q)%nat.
+  Proof.
+    intros Ho Hp H. destruct (count_runs_is_length v st n H) as (l & Hl & <-).
+    destruct (rsf_one v st q l Ho Hl) as (ps' & a' & lo & Eps & Ea & Elo & ->).
+    rewrite Hp in Eps. injection Eps as <-. rewrite Ha in Ea. injection Ea as <-.
+    rewrite app_length, (open_strs_length _ _ _ Elo). reflexivity.
+  Qed.
+
+  Lemma J_inline t path st st' :
+    plain_inline t = true -> J st -> walk v path t st = Ok st' -> J st'.
+  Proof.
+    intros Hpl (q & Ho & Hq & Hp & Hr) Hw.
+    destruct (walk_count_mono v t path Hpl st q [] st' Ho Hw) as (rs' & -> & L). unfold Rn in L.
+    exists (with_runs q rs'). split; [reflexivity|]. split; [exact Hq|]. split; [exact Hp|].
+    intros id b en Hg Hn. cbn [c_ranges set_open] in Hg.
+    destruct (Hr id b en Hg Hn) as (A & B & C). unfold open_count in *.
+    cbn [p_hstyle p_runs with_runs]. lia.
+  Qed.
+
+  Lemma J_start id st st' : J st -> start_comment_range v id st = Ok st' -> J st'.
+  Proof.
+    intros (q & Ho & Hq & Hp & Hr) H. unfold start_comment_range in H.
+    bind_inv H as n En. injection H as <-.
+    pose proof (count_in_par st q n Ho Hp En) as ->.
+    exists q. split; [exact Ho|]. split; [exact Hq|]. split; [exact Hp|].
+    intros id' b en Hg Hn. cbn [c_ranges set_ranges] in Hg. rewrite ranges_get_set in Hg.
+    destruct (str_eqb id' id).
+    - injection Hg as <- <-. lia.
+    - apply (Hr id' b en Hg Hn).
+  Qed.
+
+  Lemma J_end id st st' : J st -> end_comment_range v id st = Ok st' -> J st'.
+  Proof.
+    intros (q & Ho & Hq & Hp & Hr) H. unfold end_comment_range in H.
+    destruct (dict_get id (c_ranges st)) as [[b0 e0]|] eqn:Eg.
+    2:{ injection H as <-. exists q. auto. }
+    bind_inv H as n En. injection H as <-.
+    pose proof (count_in_par st q n Ho Hp En) as ->.
+    exists q. split; [exact Ho|]. split; [exact Hq|]. split; [exact Hp|].
+    intros id' b en Hg Hn. cbn [c_ranges set_ranges] in Hg. rewrite ranges_get_set in Hg.
+    destruct (str_eqb id' id) eqn:Ei.
+    - apply str_eqb_eq in Ei. subst id'. injection Hg as <- <-.
+      destruct (Hr id b0 e0 Eg Hn) as (A & B & C). lia.
+    - apply (Hr id' b en Hg Hn).
+  Qed.
+
+  Lemma J_child t path st st' :
+    marker_or_inline t = true -> J st -> walk v path t st = Ok st' -> J st'.
+  Proof.
+    intros Hm HJ Hw. unfold marker_or_inline in Hm. apply orb_true_iff in Hm.
+    destruct Hm as [Hpl|Hm]; [exact (J_inline t path st st' Hpl HJ Hw)|].
+    destruct t as [e [|k ks]|tl]; try discriminate Hm.
+    apply orb_true_iff in Hm. destruct Hm as [Hm|Hm]; apply str_eqb_eq in Hm.
+    - rewrite (walk_marker_start v path e st Hm) in Hw. bind_inv Hw as id Eid.
+      exact (J_start id st st' HJ Hw).
+    - rewrite (walk_marker_end v path e st Hm) in Hw. bind_inv Hw as id Eid.
+      exact (J_end id st st' HJ Hw).
+  Qed.
+
+  Lemma J_kids path : forall ks i st st',
+    forallb marker_or_inline ks = true -> J st -> kids_loop v path ks i st = Ok st' -> J st'.
+  Proof.
+    induction ks as [|k r IH]; intros i st st' Hks HJ H; cbn [kids_loop] in H.
+    - injection H as <-. exact HJ.
+    - cbn [forallb] in Hks. apply andb_true_iff in Hks. destruct Hks as [K1 K2].
+      bind_inv H as st1 E1. apply (IH (S i) st1 st' K2); [|exact H].
+      exact (J_child k (i :: path) st st1 K1 HJ E1).
+  Qed.
+End OnePar.
+
+(* the walk of a paragraph element from a state without open paragraph, in
+   its phases: s2 is the state in which the first child is walked, s3 the one
+   after the last child *)
+Lemma par_walk_decompose : forall v e ks path s s',
+  str_eqb (e_ptag e) tag_PARAGRAPH = true -> c_open s = [] -> walk v path (AE e ks) s = Ok s' ->
+  exists s2 q2 s3 s4,
+    c_open s2 = [q2] /\ settled q2 /\ c_queued s2 = [] /\ c_ranges s2 = c_ranges s
+    /\ keeps_pars s s2
+    /\ kids_loop v path ks 0%nat s2 = Ok s3
+    /\ conclude_paragraph s3 = Ok s4 /\ set_caret (Some 4%nat) None s4 = Ok s'.
+Proof.
+  intros v e ks path s s' Ht Hopen H.
+  pose proof (proj1 (str_eqb_eq _ _) Ht) as Htag.
+  assert (Hd : elem_depth (AE e ks) = Some 4%nat).
+  { unfold elem_depth. rewrite min_par_depth_AE, Htag. reflexivity. }
+  rewrite walk_AE in H. cbv zeta in H. rewrite Hd in H.
+  bind_inv H as s1 E1. apply set_caret_frame in E1.
+  destruct E1 as ((O1 & Q1 & R1 & C1) & K1 & D1 & L1).
+  rewrite Htag in H. change (str_eqb tag_PARAGRAPH tag_HYPERLINK) with false in H.
+  cbv iota in H. cbn [bind] in H.
+  bind_inv H as s2r Eo. destruct s2r as [s2 rec].
+  unfold open_tag in Eo. cbv zeta in Eo. rewrite Ht in Eo.
+  bind_inv Eo as s1b Ecp.
+  destruct (get_par_number (to_numtable v) (c_counters s1b) (get_bullet_fmt (AE e ks)))
+    as [cs number] eqn:Epn.
+  bind_inv Eo as bl Ebl. bind_inv Eo as s2a Eins.
+  destruct (c_open s2a) as [|p2 rest2] eqn:Eo2; [discriminate Eo|]. injection Eo as <- <-.
+  (* commence_paragraph *)
+  unfold commence_paragraph in Ecp.
+  bind_inv Ecp as s1a Ec1. bind_inv Ecp as hs Ehs. bind_inv Ecp as pst Epst.
+  cbv zeta in Ecp. injection Ecp as <-.
+  apply set_caret_frame in Ec1. destruct Ec1 as ((O1a & Q1a & R1a & C1a) & K1a & D1a & L1a).
+  assert (Oe : c_open s1a = []) by (rewrite O1a, O1; exact Hopen).
+  (* the list marker *)
+  match type of Eins with insert_text_as_new_run _ _ ?st = _ =>
+    destruct (settled_after_insert _ _ st s2a _ _ eq_refl Eins) as (p' & Op' & Sp');
+    destruct (realizes_inv _ _ st _ _ _ (realizes_insert v (raw bl))
+                (eq_refl : c_open st = _ :: _) Eins)
+      as (em0 & rs0 & _ & -> & _)
+  end.
+  rewrite Op' in Eo2. injection Eo2 as <- <-.
+  cbn [c_open set_open] in Op'. injection Op' as Ep'.
+  (* the rest *)
+  bind_inv H as s3 Ek. bind_inv H as s4 Ec. unfold close_tag in Ec. cbv zeta in Ec. rewrite Ht in Ec.
+  match type of Ek with kids_loop _ _ _ _ ?st = _ => exists st end. eexists. exists s3, s4.
+  split; [cbn [c_open set_open]; rewrite Oe; reflexivity|].
+  split; [exact Sp'|].
+  split; [reflexivity|].
+  split; [cbn [c_ranges set_open set_counters set_queued]; rewrite R1a, R1; reflexivity|].
+  split; [intros ps Hps; cbn [c_tree set_open set_counters set_queued]; apply K1a, K1, Hps|].
+  split; [exact Ek|]. split; [exact Ec|exact H].
+Qed.
+
+(* the whole paragraph: what it leaves behind *)
+Lemma par_with_markers_frame : forall v e ks path s s' ps a,
+  str_eqb (e_ptag e) tag_PARAGRAPH = true -> forallb marker_or_inline ks = true ->
+  c_open s = [] -> walk v path (AE e ks) s = Ok s' ->
+  pars_at 4%nat (c_tree s) = Ok ps -> mapM (par_run_strings (html_on v)) ps = Ok a ->
+  exists q, c_open s' = [] /\ c_queued s' = [] /\ pars_at 4%nat (c_tree s') = Ok (ps ++ [q])
+    /\ forall id b en, dict_get id (c_ranges s') = Some (b, en) -> dict_get id (c_ranges s) = None ->
+         (length (concat a) <= b /\ b <= en /\ en <= length (concat a) + open_count q)%nat.
+Proof.
+  intros v e ks path s s' ps a Ht Hks Hopen H Hps Ha.
+  destruct (par_walk_decompose v e ks path s s' Ht Hopen H)
+    as (s2 & q2 & s3 & s4 & O2 & _ & Q2 & R2 & K2 & Ek & Ec & E5).
+  assert (J2 : J ps a (c_ranges s) s2).
+  { exists q2. split; [exact O2|]. split; [exact Q2|]. split; [apply K2, Hps|].
+    intros id b en Hg Hn. rewrite R2, Hn in Hg. discriminate Hg. }
+  pose proof (J_kids v ps a Ha (c_ranges s) path ks O s2 s3 Hks J2 Ek) as (q & O3 & Q3 & P3 & Hr3).
+  destruct (conclude_one s3 s4 q O3 Ec) as (O4 & R4 & Q4 & _ & K4).
+  apply set_caret_frame in E5. destruct E5 as ((O5 & Q5 & R5 & C5) & K5 & D5 & L5).
+  exists q. split; [rewrite O5; exact O4|].
+  split; [rewrite Q5, Q4; exact Q3|].
+  split; [apply K5, K4, P3|].
+  intros id b en Hg Hn. rewrite R5, R4 in Hg. exact (Hr3 id b en Hg Hn).
+Qed.
+
+(* MAIN: the strings seen before the paragraph are a prefix of those seen after
+   it, and every range recorded inside it lies within the new part.  The
+   hypothesis that the final strings exist cannot be dropped: see
+   par_with_markers_prefix_counterexample below. *)
+Lemma par_with_markers_bounds : forall v e ks path s s' l l',
+  str_eqb (e_ptag e) tag_PARAGRAPH = true -> forallb marker_or_inline ks = true ->
+  c_open s = [] -> Inv s -> walk v path (AE e ks) s = Ok s' ->
+  runs_so_far v s = Ok l -> runs_so_far v s' = Ok l' ->
+  c_open s' = [] /\ c_queued s' = []
+  /\ exists x, l' = l ++ x
+     /\ forall id b en, dict_get id (c_ranges s') = Some (b, en) -> dict_get id (c_ranges s) = None ->
+          (length l <= b /\ b <= en /\ en <= length l')%nat.
+Proof.
+  intros v e ks path s s' l l' Ht Hks Hopen _ Hw Hl Hl'.
+  destruct (rsf_none v s l Hopen Hl) as (ps & a & Eps & Ea & ->).
+  destruct (par_with_markers_frame v e ks path s s' ps a Ht Hks Hopen Hw Eps Ea)
+    as (q & O' & Q' & P' & Hr).
+  split; [exact O'|]. split; [exact Q'|].
+  destruct (rsf_none v s' l' O' Hl') as (ps' & a' & Eps' & Ea' & ->).
+  rewrite P' in Eps'. injection Eps' as <-.
+  apply mapM_app_inv in Ea'. destruct Ea' as (y1 & y2 & E1 & E2 & ->).
+  rewrite Ea in E1. injection E1 as <-.
+  cbn [mapM] in E2. bind_inv E2 as lq Elq. cbn [bind] in E2. injection E2 as <-.
+  exists lq. split.
+  { rewrite concat_app. cbn [concat]. rewrite app_nil_r. reflexivity. }
+  intros id b en Hg Hn. destruct (Hr id b en Hg Hn) as (A & B & C).
+  pose proof (closed_strs_length _ _ _ Elq) as L.
+  rewrite concat_app, app_length. cbn [concat]. rewrite app_nil_r. lia.
+Qed.
+
+Lemma par_with_markers_prefix_partial : forall v e ks path s s' l l',
+  str_eqb (e_ptag e) tag_PARAGRAPH = true -> forallb marker_or_inline ks = true ->
+  c_open s = [] -> Inv s -> walk v path (AE e ks) s = Ok s' ->
+  runs_so_far v s = Ok l -> runs_so_far v s' = Ok l' ->
+  exists x, l' = l ++ x
+    /\ forall id b en, dict_get id (c_ranges s') = Some (b, en) -> dict_get id (c_ranges s) = None ->
+         (length l <= b <= length l')%nat /\ (en = b \/ (b <= en <= length l')%nat).
+Proof.
+  intros v e ks path s s' l l' Ht Hks Hopen Hs Hw Hl Hl'.
+  destruct (par_with_markers_bounds v e ks path s s' l l' Ht Hks Hopen Hs Hw Hl Hl')
+    as (_ & _ & x & Hx & Hr).
+  exists x. split; [exact Hx|]. intros id b en Hg Hn.
+  destruct (Hr id b en Hg Hn) as (A & B & C). split; [lia|right; lia].
+Qed.
+
+(* without that hypothesis the statement is false: the walk does not render
+   anything unless it meets a marker, so a run whose style has no first word
+   (here: queued before the paragraph) only fails when the strings are asked for *)
+Definition cx_env : env := {| env_x2h := []; env_rels := []; env_dup := false; env_numtbl := [] |}.
+Definition cx_par : einfo :=
+  {| e_ptag := tag_PARAGRAPH; e_uri := None; e_local := [112]; e_wuri := None; e_ruri := None;
+     e_attrs := []; e_text := None; e_tail := None |}.
+Definition cx_st : cst := set_queued [{| r_style := [[]]; r_toks := [TRaw 97] |}] init_cst.
+
+Lemma par_with_markers_prefix_counterexample :
+  exists s',
+    str_eqb (e_ptag cx_par) tag_PARAGRAPH = true /\ forallb marker_or_inline [] = true
+    /\ c_open cx_st = [] /\ Inv cx_st /\ walk cx_env [] (AE cx_par []) cx_st = Ok s'
+    /\ runs_so_far cx_env cx_st = Ok [] /\ runs_so_far cx_env s' = Err IndexError.
+Proof.
+  eexists. split; [reflexivity|]. split; [reflexivity|]. split; [reflexivity|].
+  split; [apply set_queued_inv, init_inv|].
+  split; [vm_compute; reflexivity|]. split; vm_compute; reflexivity.
+Qed.
+
+(* ================================================================== *)
+(* C3b: the strings counted at a marker are a prefix of all later ones  *)
+(* ================================================================== *)
+(* second instance of the frame: every run but the last ones is kept *)
+Definition Rp (rs rs' : list run) : Prop :=
+  forall pre tl, rs = pre ++ tl -> tl <> [] -> exists tl', rs' = pre ++ tl' /\ tl' <> [].
+
+Lemma upd_last_app {A} (f : A -> A) : forall pre tl,
+  tl <> [] -> upd_last f (pre ++ tl) = pre ++ upd_last f tl.
+Proof.
+  induction pre as [|y pre IH]; intros tl H; [reflexivity|].
+  cbn [app]. destruct (pre ++ tl) as [|z l] eqn:E.
+  - destruct pre; [cbn in E; congruence|discriminate E].
+  - change (upd_last f (y :: z :: l)) with (y :: upd_last f (z :: l)).
+    rewrite <- E, IH by exact H. reflexivity.
+Qed.
+
+Lemma upd_last_nonnil {A} (f : A -> A) tl : tl <> [] -> upd_last f tl <> [].
+Proof. destruct tl as [|x [|y r]]; cbn [upd_last]; [congruence|discriminate|discriminate]. Qed.
+
+Lemma Rp_refl rs : Rp rs rs.
+Proof. intros pre tl E N. exists tl. auto. Qed.
+Lemma Rp_trans a b c : Rp a b -> Rp b c -> Rp a c.
+Proof.
+  intros H1 H2 pre tl E N. destruct (H1 _ _ E N) as (tl1 & E1 & N1). exact (H2 _ _ E1 N1).
+Qed.
+
+Lemma walk_keeps v t path : plain_inline t = true -> mono Rp (walk v path t).
+Proof.
+  intro H. refine (walk_mono Rp Rp_refl Rp_trans _ _ _ v t H path); unfold Rp.
+  - intros rs x pre tl -> N. exists (tl ++ x). split; [rewrite app_assoc; reflexivity|].
+    destruct tl; [congruence|discriminate].
+  - intros rs pre tl -> N. exists tl. split; [|exact N].
+    destruct (pre ++ tl) eqn:E; [|reflexivity].
+    apply app_eq_nil in E. destruct E as [_ E]. congruence.
+  - intros ts rs _ pre tl -> N. eexists. split; [apply upd_last_app; exact N|].
+    apply upd_last_nonnil, N.
+Qed.
+
+(* from a settled paragraph, runs related by Rp show the same strings first *)
+Lemma settled_keeps_visible rs rs' ys ys' :
+  settled_runs rs -> Rp rs rs' -> mapM run_toks rs = Ok ys -> mapM run_toks rs' = Ok ys' ->
+  exists z, filter nonempty ys' = filter nonempty ys ++ z.
+Proof.
+  intros Hs HR Ey Ey'. destruct (settled_runs_cases _ Hs) as [E|(rs0 & r & E & Er)].
+  - rewrite E in Ey. cbn in Ey. injection Ey as <-. cbn [filter app]. eauto.
+  - destruct (HR rs0 [r] E) as (tl' & E' & _); [discriminate|].
+    rewrite E in Ey. rewrite E' in Ey'.
+    apply mapM_app_inv in Ey. destruct Ey as (ya & yb & Ea & Eb & ->).
+    apply mapM_app_inv in Ey'. destruct Ey' as (ya' & yb' & Ea' & Eb' & ->).
+    rewrite Ea in Ea'. injection Ea' as <-.
+    cbn [mapM] in Eb. rewrite (run_toks_empty _ Er) in Eb. cbn [bind] in Eb. injection Eb as <-.
+    rewrite !filter_app. cbn [filter nonempty]. rewrite app_nil_r. eauto.
+Qed.
+
+Lemma prefix_set_runs : forall v st st' l l' q rs',
+  c_open st = [q] -> c_open st' = [with_runs q rs'] -> c_tree st' = c_tree st ->
+  settled q -> Rp (p_runs q) rs' ->
+  runs_so_far v st = Ok l -> runs_so_far v st' = Ok l' -> exists x, l' = l ++ x.
+Proof.
+  intros v st st' l l' q rs' Ho Ho' Ht Hs HR Hl Hl'.
+  destruct (rsf_one v st q l Ho Hl) as (ps & a & lo & Eps & Ea & Elo & ->).
+  destruct (rsf_one v st' (with_runs q rs') l' Ho' Hl') as (ps' & a' & lo' & Eps' & Ea' & Elo' & ->).
+  rewrite Ht, Eps in Eps'. injection Eps' as <-. rewrite Ea in Ea'. injection Ea' as <-.
+  apply open_strs_spec in Elo. destruct Elo as (ys & Ey & ->).
+  apply open_strs_spec in Elo'. destruct Elo' as (ys' & Ey' & ->).
+  cbn [p_runs with_runs] in Ey'.
+  destruct (settled_keeps_visible _ _ _ _ Hs HR Ey Ey') as (z & Ez).
+  exists (map (render (html_on v)) z).
+  change (hdr (with_runs q rs')) with (hdr q).
+  rewrite Ez, app_assoc, map_app, app_assoc. reflexivity.
+Qed.
+
+(* C1 lifted from the primitives to whole inline subtrees *)
+Lemma inline_prefix_from_settled : forall v t path s s' q l l',
+  plain_inline t = true -> c_open s = [q] -> settled q -> walk v path t s = Ok s' ->
+  runs_so_far v s = Ok l -> runs_so_far v s' = Ok l' -> exists x, l' = l ++ x.
+Proof.
+  intros v t path s s' q l l' Hpl Ho Hs Hw Hl Hl'.
+  destruct (walk_keeps v t path Hpl s q [] s' Ho Hw) as (rs' & -> & HR).
+  exact (prefix_set_runs v s (set_open [with_runs q rs'] s) l l' q rs' Ho eq_refl eq_refl Hs HR Hl Hl').
+Qed.
+
+(* a child of the paragraph, marker or inline: the open paragraph keeps its
+   runs up to the last one, the tree is untouched *)
+Lemma marker_state_start v id st st' :
+  start_comment_range v id st = Ok st' -> c_open st' = c_open st /\ c_tree st' = c_tree st.
+Proof.
+  unfold start_comment_range. intro H. bind_inv H as n En. injection H as <-. split; reflexivity.
+Qed.
+Lemma marker_state_end v id st st' :
+  end_comment_range v id st = Ok st' -> c_open st' = c_open st /\ c_tree st' = c_tree st.
+Proof.
+  unfold end_comment_range. intro H. destruct (dict_get id (c_ranges st)) as [[b e0]|].
+  - bind_inv H as n En. injection H as <-. split; reflexivity.
+  - injection H as <-. split; reflexivity.
+Qed.
+
+Lemma marker_walk_state v path e st st' :
+  str_eqb (e_ptag e) tag_COMMENT_RANGE_START || str_eqb (e_ptag e) tag_COMMENT_RANGE_END = true ->
+  walk v path (AE e []) st = Ok st' -> c_open st' = c_open st /\ c_tree st' = c_tree st.
+Proof.
+  intros Hm Hw. apply orb_true_iff in Hm. destruct Hm as [Hm|Hm]; apply str_eqb_eq in Hm.
+  - rewrite (walk_marker_start v path e st Hm) in Hw. bind_inv Hw as id Eid.
+    exact (marker_state_start v id st st' Hw).
+  - rewrite (walk_marker_end v path e st Hm) in Hw. bind_inv Hw as id Eid.
+    exact (marker_state_end v id st st' Hw).
+Qed.
+
+Lemma child_follows v t path st st' q :
+  marker_or_inline t = true -> c_open st = [q] -> walk v path t st = Ok st' ->
+  exists rs', c_open st' = [with_runs q rs'] /\ c_tree st' = c_tree st /\ Rp (p_runs q) rs'.
+Proof.
+  intros Hm Ho Hw. unfold marker_or_inline in Hm. apply orb_true_iff in Hm.
+  destruct Hm as [Hpl|Hm].
+  - destruct (walk_keeps v t path Hpl st q [] st' Ho Hw) as (rs' & -> & HR).
+    exists rs'. auto.
+  - destruct t as [e [|k ks]|tl]; try discriminate Hm.
+    destruct (marker_walk_state v path e st st' Hm Hw) as [O' T'].
+    exists (p_runs q). rewrite with_runs_id, O'. split; [exact Ho|]. split; [exact T'|apply Rp_refl].
+Qed.
+
+Lemma kids_follow v path : forall ks i st st' q,
+  forallb marker_or_inline ks = true -> c_open st = [q] -> kids_loop v path ks i st = Ok st' ->
+  exists rs', c_open st' = [with_runs q rs'] /\ c_tree st' = c_tree st /\ Rp (p_runs q) rs'.
+Proof.
+  induction ks as [|k r IH]; intros i st st' q Hks Ho H; cbn [kids_loop] in H.
+  - injection H as <-. exists (p_runs q). rewrite with_runs_id. auto using Rp_refl.
+  - cbn [forallb] in Hks. apply andb_true_iff in Hks. destruct Hks as [K1 K2].
+    bind_inv H as st1 E1.
+    destruct (child_follows v k (i :: path) st st1 q K1 Ho E1) as (rs1 & O1 & T1 & R1).
+    destruct (IH (S i) st1 st' (with_runs q rs1) K2 O1 H) as (rs2 & O2 & T2 & R2).
+    exists rs2. split; [exact O2|]. split; [rewrite T2; exact T1|].
+    cbn [p_runs with_runs] in R2. exact (Rp_trans _ _ _ R1 R2).
+Qed.
+
+(* the children after which the paragraph is settled again: runs (and
+   comments / processing instructions, which do nothing) and markers *)
+Definition run_or_marker (t : anode) : bool :=
+  match t with
+  | AX _ => true
+  | AE e ks =>
+      (str_eqb (e_ptag e) tag_RUN && forallb plain_inline ks)
+      || match ks with
+         | [] => str_eqb (e_ptag e) tag_COMMENT_RANGE_START
+                 || str_eqb (e_ptag e) tag_COMMENT_RANGE_END
+         | _ => false
+         end
+  end.
+
+Lemma run_is_inline e ks :
+  str_eqb (e_ptag e) tag_RUN = true -> forallb plain_inline ks = true ->
+  plain_inline (AE e ks) = true.
+Proof.
+  intros Ht Hks. apply str_eqb_eq in Ht. cbn [plain_inline]. rewrite Ht, Hks. reflexivity.
+Qed.
+
+Lemma run_or_marker_inline t : run_or_marker t = true -> marker_or_inline t = true.
+Proof.
+  destruct t as [e ks|tl]; [|reflexivity]. unfold run_or_marker, marker_or_inline. intro H.
+  apply orb_true_iff in H. apply orb_true_iff. destruct H as [H|H].
+  - left. apply andb_true_iff in H. destruct H as [Ht Hks]. apply run_is_inline; assumption.
+  - right. exact H.
+Qed.
+
+Lemma run_or_marker_all ks :
+  forallb run_or_marker ks = true -> forallb marker_or_inline ks = true.
+Proof.
+  induction ks as [|k r IH]; [reflexivity|]. cbn [forallb]. intro H.
+  apply andb_true_iff in H. destruct H as [K1 K2].
+  rewrite (run_or_marker_inline _ K1), (IH K2). reflexivity.
+Qed.
+
+Definition Rtop (_ _ : list run) : Prop := True.
+
+Lemma settled_child v t path st st' q :
+  run_or_marker t = true -> c_open st = [q] -> settled q -> walk v path t st = Ok st' ->
+  exists q', c_open st' = [q'] /\ settled q'.
+Proof.
+  intros Hm Ho Hs Hw. destruct t as [e ks|tl].
+  2:{ cbn in Hw. injection Hw as <-. exists q. auto. }
+  unfold run_or_marker in Hm. apply orb_true_iff in Hm. destruct Hm as [Hm|Hm].
+  - apply andb_true_iff in Hm. destruct Hm as [Ht Hks].
+    pose proof (run_is_inline e ks Ht Hks) as Hpl.
+    destruct (walk_inline_split' Rtop (fun _ => I) (fun _ _ _ _ _ => I) (fun _ _ => I)
+                (fun _ => I) (fun _ _ _ => I) v e ks path st q [] st' Hpl Ho Hw)
+      as (rs3 & _ & Ec).
+    unfold close_tag in Ec. cbv zeta in Ec. apply str_eqb_eq in Ht. rewrite Ht in Ec.
+    change (str_eqb tag_RUN tag_PARAGRAPH) with false in Ec.
+    change (str_eqb tag_RUN tag_RUN) with true in Ec. cbv iota in Ec.
+    exact (settled_after_commence_run v [] (set_open [with_runs q rs3] st) st' (with_runs q rs3) []
+             eq_refl Ec).
+  - destruct ks as [|k ks]; [|discriminate Hm].
+    destruct (marker_walk_state v path e st st' Hm Hw) as [O' _].
+    exists q. rewrite O'. auto.
+Qed.
+
+Lemma settled_kids v path : forall ks i st st' q,
+  forallb run_or_marker ks = true -> c_open st = [q] -> settled q ->
+  kids_loop v path ks i st = Ok st' -> exists q', c_open st' = [q'] /\ settled q'.
+Proof.
+  induction ks as [|k r IH]; intros i st st' q Hks Ho Hs H; cbn [kids_loop] in H.
+  - injection H as <-. exists q. auto.
+  - cbn [forallb] in Hks. apply andb_true_iff in Hks. destruct Hks as [K1 K2].
+    bind_inv H as st1 E1.
+    destruct (settled_child v k (i :: path) st st1 q K1 Ho Hs E1) as (q1 & O1 & S1).
+    exact (IH (S i) st1 st' q1 K2 O1 S1 H).
+Qed.
+
+(* the state met by a marker that follows runs and markers only shows a
+   prefix of what every later state of the same paragraph shows *)
+Theorem marker_snapshot_is_prefix : forall v path ks1 ks2 i j st st1 st2 q l1 l2,
+  forallb run_or_marker ks1 = true -> forallb marker_or_inline ks2 = true ->
+  c_open st = [q] -> settled q ->
+  kids_loop v path ks1 i st = Ok st1 -> kids_loop v path ks2 j st1 = Ok st2 ->
+  runs_so_far v st1 = Ok l1 -> runs_so_far v st2 = Ok l2 -> exists x, l2 = l1 ++ x.
+Proof.
+  intros v path ks1 ks2 i j st st1 st2 q l1 l2 H1 H2 Ho Hs E1 E2 Hl1 Hl2.
+  destruct (settled_kids v path ks1 i st st1 q H1 Ho Hs E1) as (q1 & O1 & S1).
+  destruct (kids_follow v path ks2 j st1 st2 q1 H2 O1 E2) as (rs2 & O2 & T2 & R2).
+  exact (prefix_set_runs v st1 st2 l1 l2 q1 rs2 O1 O2 T2 S1 R2 Hl1 Hl2).
+Qed.
+
+Lemma kids_loop_app v path : forall a b i s,
+  kids_loop v path (a ++ b) i s
+  = (s1 <- kids_loop v path a i s ;; kids_loop v path b (i + length a)%nat s1).
+Proof.
+  induction a as [|k r IH]; intros b i s.
+  - cbn [app kids_loop length bind]. rewrite Nat.add_0_r. reflexivity.
+  - cbn [app kids_loop length]. destruct (walk v (i :: path) k s) as [s1|x]; [|reflexivity].
+    cbn [bind]. rewrite IH, Nat.add_succ_r. reflexivity.
+Qed.
+
+Lemma rsf_same v s s' l :
+  c_open s' = c_open s -> keeps_pars s s' -> runs_so_far v s = Ok l -> runs_so_far v s' = Ok l.
+Proof.
+  intros Ho K H. unfold runs_so_far in *. bind_inv H as ps Eps. rewrite (K ps Eps), Ho.
+  exact H.
+Qed.
+
+(* the same for the whole paragraph: st1 is the state in which the walk
+   reaches the children ks2 (the value a marker at the head of ks2 records is
+   the length of runs_so_far there); its strings are a prefix of the strings
+   after the paragraph *)
+Theorem par_marker_snapshot_prefix : forall v e ks1 ks2 path s s' l',
+  str_eqb (e_ptag e) tag_PARAGRAPH = true ->
+  forallb run_or_marker ks1 = true -> forallb marker_or_inline ks2 = true ->
+  c_open s = [] -> walk v path (AE e (ks1 ++ ks2)) s = Ok s' ->
+  runs_so_far v s' = Ok l' ->
+  exists s2 st1 s3 s4,
+    keeps_pars s s2 /\ c_ranges s2 = c_ranges s
+    /\ kids_loop v path ks1 0%nat s2 = Ok st1
+    /\ kids_loop v path ks2 (length ks1) st1 = Ok s3
+    /\ conclude_paragraph s3 = Ok s4 /\ set_caret (Some 4%nat) None s4 = Ok s'
+    /\ forall l1, runs_so_far v st1 = Ok l1 -> exists x, l' = l1 ++ x.
+Proof.
+  intros v e ks1 ks2 path s s' l' Ht H1 H2 Hopen Hw Hl'.
+  destruct (par_walk_decompose v e (ks1 ++ ks2) path s s' Ht Hopen Hw)
+    as (s2 & q2 & s3 & s4 & O2 & S2 & Q2 & R2 & K2 & Ek & Ec & E5).
+  rewrite kids_loop_app in Ek. bind_inv Ek as st1 Ek1. cbn [Nat.add] in Ek.
+  exists s2, st1, s3, s4. repeat (split; [assumption|]).
+  intros l1 Hl1.
+  destruct (settled_kids v path ks1 O s2 st1 q2 H1 O2 S2 Ek1) as (q1 & O1 & S1).
+  destruct (kids_follow v path ks2 (length ks1) st1 s3 q1 H2 O1 Ek) as (rs3 & O3 & T3 & R3).
+  (* the strings after the paragraph extend those of s3 *)
+  destruct (conclude_one s3 s4 _ O3 Ec) as (O4 & _ & _ & _ & K4).
+  apply set_caret_frame in E5. destruct E5 as ((O5 & _) & K5 & _).
+  assert (Hl4 : runs_so_far v s4 = Ok l').
+  { unfold runs_so_far in Hl' |- *. rewrite O5 in Hl'.
+    destruct (pars_at 4%nat (c_tree s4)) as [ps4|x] eqn:E4.
+    - rewrite (K5 ps4 E4) in Hl'. exact Hl'.
+    - (* pars_at of s4 succeeds: it is that of s3 plus the concluded paragraph *)
+      exfalso. destruct (rsf_one v st1 q1 l1 O1 Hl1) as (ps & a & lo & Eps & _).
+      rewrite <- T3 in Eps. discriminate (K4 ps Eps). }
+  destruct (rsf_one v st1 q1 l1 O1 Hl1) as (ps & a & lo & Eps & Ea & Elo & El1).
+  destruct (rsf_none v s4 l' O4 Hl4) as (ps4 & a4 & Eps4 & Ea4 & ->).
+  rewrite <- T3 in Eps. rewrite (K4 ps Eps) in Eps4. injection Eps4 as <-.
+  apply mapM_app_inv in Ea4. destruct Ea4 as (y1 & y2 & E1 & E2 & ->).
+  rewrite Ea in E1. injection E1 as <-.
+  cbn [mapM] in E2. bind_inv E2 as lq Elq. cbn [bind] in E2. injection E2 as <-.
+  destruct (closed_strs_spec _ _ _ Elq) as (lo3 & z & Elo3 & ->).
+  apply open_strs_spec in Elo. destruct Elo as (ys & Ey & ->).
+  apply open_strs_spec in Elo3. destruct Elo3 as (ys3 & Ey3 & ->).
+  cbn [p_runs with_runs] in Ey3.
+  destruct (settled_keeps_visible _ _ _ _ S1 R3 Ey Ey3) as (z3 & Ez3).
+  exists (map (render (html_on v)) z3 ++ z). subst l1.
+  change (hdr (with_runs q1 rs3)) with (hdr q1).
+  rewrite concat_app. cbn [concat]. rewrite app_nil_r, Ez3.
+  rewrite (app_assoc (hdr q1)), map_app, <- !app_assoc. reflexivity.
+Qed.
+
+(* ================================================================== *)
 (* C4: the public attribute                                             *)
 (* ================================================================== *)
 Lemma comments_none_without_part : forall a o fs od rest dc,
@@ -353,5 +1168,13 @@ Print Assumptions settled_after_insert.
 Print Assumptions settled_after_commence_run.
 Print Assumptions add_toks_unsettled_not_prefix.
 Print Assumptions conclude_prefix.
+Print Assumptions walk_count_mono.
+Print Assumptions par_with_markers_frame.
+Print Assumptions par_with_markers_bounds.
+Print Assumptions par_with_markers_prefix_partial.
+Print Assumptions par_with_markers_prefix_counterexample.
+Print Assumptions inline_prefix_from_settled.
+Print Assumptions marker_snapshot_is_prefix.
+Print Assumptions par_marker_snapshot_prefix.
 Print Assumptions comments_none_without_part.
 Print Assumptions comments_mismatch_without_part.
